@@ -475,6 +475,13 @@ class InterpAlgorithmFixed(object):
         ndarray
             Derivative of interpolated values with respect to grid.
         """
+        if getattr(self, 'vec_coeff', None) is not None:
+            # The caches were last filled by a vectorized evaluation and hold array brackets and
+            # a set of computed cells, so restart them for the single point forms.
+            self.coeffs = {}
+            self.vec_coeff = None
+            self.last_index = [0] * self.dim
+
         idx, _ = self.bracket(x)
         result, d_dx, d_values, d_grid = self.interpolate(x, idx)
 
